@@ -179,8 +179,8 @@ impl Move {
                 s.push(match new_piece {
                     PieceType::Queen => 'Q',
                     PieceType::Rook => 'R',
-                    PieceType::Bishop => 'K',
-                    PieceType::Knight => 'B',
+                    PieceType::Bishop => 'B',
+                    PieceType::Knight => 'N',
                     _ => unreachable!(),
                 });
                 s
